@@ -793,6 +793,21 @@ func (c *ConnTap) frame(dir Dir, kind Kind, pi *PacketInfo, f *Frame) {
 		c.crypto[dir][lvl].add(f.Offset, f.Data)
 		c.parseCrypto(dir, lvl)
 	case f.IsStream():
+		// ---- C15 wire layer: a stream opened by side dir never has a number beyond the largest stream
+		// count its peer has put on the wire (transport parameter, raised by MAX_STREAMS frames emitted so far)
+		if Dir(f.StreamID&1) == dir && kind == KindOneRTT {
+			if tp := c.peerTP(dir); tp != nil {
+				ti, id := 0, uint64(TPInitialMaxStreamsBidi)
+				if f.StreamID&2 != 0 {
+					ti, id = 1, TPInitialMaxStreamsUni
+				}
+				lim := max(tp.Int(id, 0), c.MaxStreams[peer][ti])
+				c.Counts["c15_stream_count_checks"]++
+				if f.StreamID/4+1 > lim {
+					c.anomaly("C15", "C15|wire|stream-opened-beyond-peer-limit", "%s sent a STREAM frame for its stream %d (number %d), the peer's largest advertised stream count is %d", dir, f.StreamID, f.StreamID/4+1, lim)
+				}
+			}
+		}
 		s := c.stream(dir, f.StreamID)
 		end := f.Offset + uint64(len(f.Data))
 		ov := s.Sent.add(f.Offset, end)
